@@ -185,6 +185,13 @@ class SpecMixin:
                 return self.with_envs(self.old_envs, lambda: self.eval(a0))
             finally:
                 self.heap = saved_heap
+        if name == "iter_old":      # value at the start of the current loop iteration (after havoc + invariant)
+            a0 = n.args[0]
+            if isinstance(a0, ast.Constant) and isinstance(a0.value, str):
+                a0 = parse_expr(a0.value)
+            if getattr(self, "iter_envs", None) is None:
+                raise GenError("iter_old outside a loop iteration")
+            return self.with_envs(self.iter_envs, lambda: self.eval(a0))
         if name == "joinr":
             sep, xs, a, b = (self.eval(x) for x in n.args)
             xs = self.as_vlist(xs, "str")
